@@ -33,6 +33,15 @@ type channelHolder struct {
 
 func (c *channelHolder) HandleActive(ctx ActiveContext) {
 	c.addChannel(ctx.Channel())
+
+	// the context the channel was created with (the bootstrap's) may have been cancelled while the
+	// channel was being set up: CloseAll has then already run and will never see this channel, and a
+	// handler that waits for the peer during activation would keep it open for ever.
+	if err := ctx.Channel().Context().Err(); nil != err {
+		ctx.Channel().Close(err)
+		return
+	}
+
 	ctx.HandleActive()
 }
 
